@@ -21,8 +21,8 @@ def variants(tier):
 
 def budget(tier):
     if tier == "thorough":
-        return dict(shards=12, examples=6, seconds=1500, shrink_seconds=10, min_nontrivial=2)
-    return dict(shards=6, examples=2, seconds=100, shrink_seconds=5, min_nontrivial=2)
+        return dict(shards=14, examples=10, seconds=1500, shrink_seconds=60, min_nontrivial=8)
+    return dict(shards=12, examples=4, seconds=110, shrink_seconds=30, min_nontrivial=4)
 
 
 def strategy(tier):
